@@ -23,7 +23,7 @@ func init() {
 		Rule: "A: every accepted schema of the C13 accepting side (bases, single valid edits; thorough: pairs) loaded via SDL and via AddTypes; " +
 			"B: a site schema with every description site (type of each kind, field, argument, enum value, input field, directive, directive argument) and every string-constant site (argument default, input-field default, " +
 			"directive-argument default, directive-use argument, nested in a list / object default) x every string of <= 2 (thorough 3) units over {a, space, quote, backslash, LF, CR, TAB, #, triple-quote, backslash-quote, e-acute, emoji, 0x01}; " +
-			"C (thorough): ggqlgen -w and -e on the base schemas. Oracle: the printed SDL is accepted by a fresh root, both roots read back to the same canonical description, printing again is a fixed point. " +
+			"C: the built ggqlgen run with -w and with -e on the base schemas. Oracle: the printed SDL is accepted by a fresh root, both roots read back to the same canonical description, printing again is a fixed point. " +
 			"distinct = (schema, route); non-trivial = the string under test needs an escape or the schema is not a base",
 		Technique:      "bounded-exhaustive enumeration of schemas and string contents on the real printer/parser with a read-back differential oracle",
 		Assumptions:    []string{"descriptions are compared as the parser normalises them (trimmed lines, no blank lines - changelog 0.9.13)", "a null default is indistinguishable from no default and is not generated"},
@@ -311,7 +311,7 @@ func runC15(c *core.Ctx) {
 		}
 	}
 	// ---- C: ggqlgen -w / -e (thorough, shard 0)
-	if c.Thorough() && c.Shard == 0 {
+	if c.Shard == 0 {
 		c15Ggqlgen(c, bases)
 	}
 	c.R.Bound = fmt.Sprintf("A: %d schemas; B: %d sites x %d strings (<= %d units over %d); C: ggqlgen on the bases (thorough)", len(subjects), len(c15Sites()), len(strs), maxLen, len(c15Units))
@@ -350,7 +350,7 @@ func c15Ggqlgen(c *core.Ctx, bases []*sgen.Schema) {
 		c.Eval()
 		c.R.Distinct++
 		c.Nontrivial()
-		out, err := exec.Command(bin, "-w", file, file).CombinedOutput()
+		out, err := exec.Command(bin, "-w", file).CombinedOutput()
 		detail := map[string]interface{}{"schema": fmt.Sprintf("base S%d", i), "tool": "ggqlgen -w", "output": string(out)}
 		if err != nil {
 			c.Violation("ggqlgen", map[string]string{"what": "tool-failed", "flag": "-w"}, detail)
@@ -372,6 +372,39 @@ func c15Ggqlgen(c *core.Ctx, bases []*sgen.Schema) {
 			continue
 		}
 		c.Outcome("ggqlgen-w-ok")
+		// -e src:dest:name: the embedded constant must hold the same schema
+		src := filepath.Join(dir, fmt.Sprintf("e%d.graphql", i))
+		dest := filepath.Join(dir, fmt.Sprintf("e%d.go", i))
+		_ = os.WriteFile(src, []byte(b.SDL()), 0o644)
+		c.Eval()
+		c.R.Distinct++
+		out, err = exec.Command(bin, "-p", "x", "-e", src+":"+dest+":SDL", src).CombinedOutput()
+		detail = map[string]interface{}{"schema": fmt.Sprintf("base S%d", i), "tool": "ggqlgen -e", "output": string(out)}
+		if err != nil {
+			c.Violation("ggqlgen", map[string]string{"what": "tool-failed", "flag": "-e"}, detail)
+			continue
+		}
+		goSrc, _ := os.ReadFile(dest)
+		first, last := strings.IndexByte(string(goSrc), '`'), strings.LastIndexByte(string(goSrc), '`')
+		if first < 0 || last <= first {
+			detail["diff"] = "no backtick constant in the embedded file"
+			c.Violation("ggqlgen", map[string]string{"what": "no-constant", "flag": "-e"}, detail)
+			continue
+		}
+		embedded := string(goSrc[first+1 : last])
+		l = loadSDL(embedded)
+		if l.err != nil || l.pi != nil {
+			detail["diff"], detail["embedded"] = fmt.Sprint(l.err), embedded
+			c.Violation("ggqlgen", map[string]string{"what": "embedded-sdl-refused", "flag": "-e"}, detail)
+			continue
+		}
+		back, err = sgen.FromRoot(l.root, b.DirectiveNames())
+		if err != nil || back.Canonical(sgen.CanonOpts{}) != normalizeDescs(b).Canonical(sgen.CanonOpts{}) {
+			detail["diff"], detail["embedded"] = "embedded constant defines a different schema", embedded
+			c.Violation("ggqlgen", map[string]string{"what": "schema-changed", "flag": "-e"}, detail)
+			continue
+		}
+		c.Outcome("ggqlgen-e-ok")
 	}
 }
 
